@@ -7,6 +7,7 @@ export CARGO_NET_OFFLINE=true
 (cd harness && cargo build --release --offline --features hooks --target-dir ../target/hooks)
 (cd harness && cargo build --release --offline --target-dir ../target/plain)
 (cd /repo && cargo build --offline --bin xml_schema_generator --target-dir "$VERIF_DIR/target/repo-bin")
+(cd depthprobe && cp /repo/Cargo.lock Cargo.lock && cargo build --offline --target-dir "$VERIF_DIR/target/depthprobe")
 # pre-build the dependencies of the generated-program farm
 rm -rf work/farm-setup && mkdir -p work/farm-setup/src/bin && cp farm-template/Cargo.toml work/farm-setup/ && cp farm-template/src/lib.rs work/farm-setup/src/ && cp /repo/Cargo.lock work/farm-setup/
 echo 'fn main() {}' > work/farm-setup/src/bin/shard_00.rs
